@@ -128,6 +128,14 @@ class Run:
         # a parent stack declared static / thread_local survives the call: the model keeps it across serialize() calls
         stack = self.persistent if self.static_stack else []
         pending = {}
+        # the write buffer as the tightest legal implementation: `room[0]` = bytes reserved behind the current end.  Grow(n)
+        # / Reserve(n) guarantee exactly what they are asked for; an unchecked push or a value writer that may need more
+        # than is reserved is an overflow (undefined behaviour).  Writer extents: the longest text each may produce.
+        room = [0]
+
+        def need(k, what):
+            if k > room[0]:
+                raise UndefinedBehaviour('%s needs %d byte(s) behind the end of the write buffer, only %d are reserved on this path' % (what, k, room[0]))
         BASE = 1 << 20
         it = None
 
@@ -183,7 +191,8 @@ class Run:
                 if name == 'GetUint64':
                     return n.val if n.kind == 'uint' else (n.val & ((1 << 64) - 1))
                 if name == 'GetInt64':
-                    return n.val
+                    # the 8 payload bytes read as a signed value, whatever the kind says
+                    return n.val - (1 << 64) if n.val >= (1 << 63) else n.val
                 if name == 'GetDouble':
                     return ('dbl', n.val)
                 raise Unsupported('node method %s' % name)
@@ -195,23 +204,46 @@ class Run:
                 raise Unsupported('string view method %s' % name)
             if o == 'WB':
                 if name == 'Clear':
+                    room[0] += len(out)
                     del out[:]
                     return 0
-                if name in ('Reserve', 'Grow'):
+                if name == 'Grow':
+                    room[0] = max(room[0], args[0] if args and isinstance(args[0], int) else 0)
+                    return 0
+                if name == 'Reserve':
+                    room[0] = max(room[0], (args[0] if args and isinstance(args[0], int) else 0) - len(out))
+                    return 0
+                if name == 'Push':
+                    # the checked push: grows as needed
+                    if len(args) == 1:
+                        out.append(args[0] & 0xff)
+                    elif len(args) == 2 and isinstance(args[0], tuple) and args[0][0] == 'chars':
+                        out.extend(args[0][1].val.encode()[:args[1]])
+                    elif len(args) == 2 and isinstance(args[0], bytes):
+                        out.extend(args[0][:args[1]])
+                    else:
+                        raise Unsupported('Push%r' % (tuple(args),))
+                    room[0] = max(0, room[0] - (1 if len(args) == 1 else args[1]))
                     return 0
                 if name == 'End':
                     return BASE + len(out)
                 if name == 'PushUnsafe' and len(args) == 1:
+                    need(1, 'PushUnsafe of one byte')
+                    room[0] -= 1
                     out.append(args[0] & 0xff)
                     return 0
                 if name == 'PushUnsafe' and len(args) == 2:
                     src, ln = args
                     if not (isinstance(src, tuple) and src[0] == 'chars') or ln != len(src[1].val):
                         raise UndefinedBehaviour('raw copy of %s bytes from %s' % (ln, src))
+                    need(ln, 'PushUnsafe of %d bytes' % ln)
+                    room[0] -= ln
                     out.extend(src[1].val.encode())
                     return 0
                 if name == 'Push5_8':
                     lit, k = args
+                    need(8, 'Push5_8 (an 8-byte store)')
+                    room[0] -= k
                     out.extend(lit[:k])
                     return 0
                 if name == 'PushSizeUnsafe':
@@ -219,6 +251,8 @@ class Run:
                     tx = pending.pop(BASE + len(out), None)
                     if tx is None or k != len(tx):
                         raise UndefinedBehaviour('PushSizeUnsafe(%s) does not cover the %s just written at the end of the buffer' % (k, 'text %r' % tx if tx is not None else 'nothing'))
+                    need(k, 'PushSizeUnsafe(%d)' % k)
+                    room[0] -= k
                     out.extend(tx)
                     return 0
                 if name == 'Pop':
@@ -226,6 +260,7 @@ class Run:
                     if k > len(out):
                         raise UndefinedBehaviour('Pop(%d) from %d bytes' % (k, len(out)))
                     del out[len(out) - k:]
+                    room[0] += k
                     return 0
                 raise Unsupported('write buffer method %s' % name)
             if o == 'STK':
@@ -252,6 +287,7 @@ class Run:
                 src, ln, dst = args
                 if not (isinstance(src, tuple) and src[0] == 'chars') or ln != len(src[1].val) or dst != BASE + len(out):
                     raise UndefinedBehaviour('Quote(%s, %s, %s) with the buffer end at %s' % (src, ln, dst, BASE + len(out)))
+                need(6 * ln + 2, 'Quote of a %d-byte string (up to 6 bytes per byte plus the quotes)' % ln)
                 tx = ('"%s"' % src[1].val).encode()
                 pending[dst] = tx
                 return dst + len(tx)
@@ -259,6 +295,7 @@ class Run:
                 dst, v = args
                 if dst != BASE + len(out):
                     raise UndefinedBehaviour('%s writes at %s, the buffer ends at %s' % (name, dst, BASE + len(out)))
+                need(20 if name == 'U64toa' else 21, '%s (up to %d characters)' % (name, 20 if name == 'U64toa' else 21))
                 tx = str(v).encode()
                 pending[dst] = tx
                 return dst + len(tx)
@@ -266,6 +303,7 @@ class Run:
                 dst, v = args
                 if dst != BASE + len(out) or not (isinstance(v, tuple) and v[0] == 'dbl'):
                     raise UndefinedBehaviour('F64toa(%s, %s)' % (dst, v))
+                need(24, 'F64toa (up to 24 characters)')
                 if v[1] in ('inf', 'nan'):
                     return 0
                 tx = v[1].encode()
